@@ -147,6 +147,7 @@ Attributes: Logarithms
 """
 
 import math
+import threading
 from collections import defaultdict
 from decimal import Decimal
 from functools import lru_cache, total_ordering
@@ -185,6 +186,11 @@ ic = _ic
 __version__ = version("measured")
 
 NUMERIC_CLASSES = (int, float, Decimal)
+
+# Dimensions, prefixes and units are singletons: looking one up in its class's table
+# and adding it when it is missing must happen as one step, or two threads
+# constructing the same new object at the same time would each get their own
+_interning = threading.RLock()
 Numeric = Union[int, float, Decimal]
 
 
@@ -299,13 +305,14 @@ class Dimension:
         symbol: Optional[str] = None,
     ) -> "Dimension":
         key = exponents
-        if key in cls._known:
-            return cls._known[key]
+        with _interning:
+            if key in cls._known:
+                return cls._known[key]
 
-        self = super().__new__(cls)
-        self._initialized = False
-        cls._known[key] = self
-        return self
+            self = super().__new__(cls)
+            self._initialized = False
+            cls._known[key] = self
+            return self
 
     def __init__(
         self,
@@ -662,13 +669,15 @@ class Prefix:
             if known is not None and (known.symbol or symbol) != symbol:
                 raise ValueError(f"{known!r} already has the symbol {known.symbol}")
 
-        if known is not None:
-            return known
+        with _interning:
+            known = cls._known.get(key, known)
+            if known is not None:
+                return known
 
-        self = super().__new__(cls)
-        self._initialized = False
-        cls._known[key] = self
-        return self
+            self = super().__new__(cls)
+            self._initialized = False
+            cls._known[key] = self
+            return self
 
     def __init__(
         self,
@@ -929,18 +938,19 @@ class Unit:
         symbol: Optional[str] = None,
     ) -> "Unit":
         key = cls._build_key(prefix, factors)
-        if key in cls._known:
-            return cls._known[key]
+        with _interning:
+            if key in cls._known:
+                return cls._known[key]
 
-        if name and name in cls._by_name:
-            return cls._by_name[name]
+            if name and name in cls._by_name:
+                return cls._by_name[name]
 
-        self = super().__new__(cls)
-        self._initialized = False
-        if not factors:
-            key = cls._build_key(prefix, {self: 1})
-        cls._known[key] = self
-        return self
+            self = super().__new__(cls)
+            self._initialized = False
+            if not factors:
+                key = cls._build_key(prefix, {self: 1})
+            cls._known[key] = self
+            return self
 
     def __init__(
         self,
